@@ -36,6 +36,31 @@ TRUSTED = ["scipy.integrate.dblquad for the density check", "zoo.TableMeasure (e
 INF = math.inf
 
 
+def guarded(probe):
+    """an exception coming out of rpylib on a generated (valid) input is a failure of the property on the implementation
+    (reported under `probe`); an exception of the harness itself stays an infrastructure error"""
+    def deco(fn):
+        def wrapped(ctx, inp):
+            try:
+                return fn(ctx, inp)
+            except Exception as e:  # noqa
+                import traceback
+                frames = traceback.extract_tb(e.__traceback__)
+                if not any("/rpylib/" in fr_.filename for fr_ in frames):
+                    raise
+                cls = {}
+                try:
+                    if "I" in inp:
+                        cls = classify(inp["spec"], inp["I"], inp["a"], inp["b"])
+                except Exception:
+                    pass
+                ctx.fail("oracle", probe, inp, {"what": "the implementation raises on this input", "exception": repr(e)[:300],
+                                                "where": f"{frames[-1].filename}:{frames[-1].lineno}"}, cls=cls)
+        wrapped.__name__ = fn.__name__
+        return wrapped
+    return deco
+
+
 # ------------------------------------------------------------------------------------------------ models from JSON-able specs
 class ExactTable(zoo.TableMeasure):
     """zoo.TableMeasure with the infinite end points clipped by sign (zoo's `_exact` treats a = +inf like -inf, so that
@@ -212,13 +237,17 @@ def kind_of(model):
 
 
 # ------------------------------------------------------------------------------------------------ probes
+@guarded("c12.fast_vs_general")
 def p_model_table(ctx, inp):
     """C: implementation (general and fast formula) vs M fed with the implementation's own tail integrals"""
     spec, I, a, b = inp["spec"], inp["I"], inp["a"], inp["b"]
     model = get_model(spec)
+    cls = classify(spec, I, a, b)
     try:
         g, f = mass_general(model, I, a, b), mass_fast(model, I, a, b)
-    except Exception as e:  # the tail integral at 0 raises for some margins: nothing to compare
+    except Exception as e:  # the tail integral at exactly 0 raises for some margins (finding): nothing to compare
+        if not (cls["zero_end"] and cls["tail_at_zero_nonfinite"]):
+            raise
         ctx.branches[f"c12.model.table:raises:{type(e).__name__}"] += 1
         return
     sc = scale_of(model, I, a, b)
@@ -237,6 +266,7 @@ def lean_cop_name(cd):
     return "indep" if cd["cop"] == "independent" else "dep"
 
 
+@guarded("c12.fast_vs_general")
 def p_model_exact(ctx, inp):
     """C: TableMeasure margins + exactly computable copula: M computes margin_tail_integral itself from the marginal tail integrals"""
     spec, I, a, b = inp["spec"], inp["I"], inp["a"], inp["b"]
@@ -270,13 +300,16 @@ def mirrors(ctx, model, I, a, b, value):
         return None
 
 
+@guarded("c12.fast_vs_general")
 def p_fast_vs_general(ctx, inp):
     spec, I, a, b = inp["spec"], inp["I"], inp["a"], inp["b"]
     model = get_model(spec)
     cls = classify(spec, I, a, b)
     try:
         g, f = mass_general(model, I, a, b), mass_fast(model, I, a, b)
-    except Exception as e:
+    except Exception as e:  # recorded under c12.nonneg (tail integral at exactly 0 raises)
+        if not (cls["zero_end"] and cls["tail_at_zero_nonfinite"]):
+            raise
         ctx.branches[f"c12.fast_vs_general:raises:{type(e).__name__}"] += 1
         return
     sc = scale_of(model, I, a, b)
@@ -287,6 +320,7 @@ def p_fast_vs_general(ctx, inp):
                  cls=cls, mirrors_model=mirrors(ctx, model, I, a, b, f))
 
 
+@guarded("c12.nonneg")
 def p_nonneg(ctx, inp):
     spec, I, a, b = inp["spec"], inp["I"], inp["a"], inp["b"]
     model = get_model(spec)
@@ -305,6 +339,7 @@ def p_nonneg(ctx, inp):
                  cls=cls, mirrors_model=mirrors(ctx, model, I, a, b, f))
 
 
+@guarded("c12.additivity")
 def p_additivity(ctx, inp):
     spec, I, a, b, k, c = inp["spec"], inp["I"], inp["a"], inp["b"], inp["k"], inp["c"]
     model = get_model(spec)
@@ -331,6 +366,7 @@ def p_additivity(ctx, inp):
                                                    "scale": sc}, cls=cls, mirrors_model=m)
 
 
+@guarded("c12.margin")
 def p_margin(ctx, inp):
     """other coordinates over the whole line: the mass is the marginal Levy mass nu_k((a,b])"""
     spec, k, a, b = inp["spec"], inp["k"], inp["a"], inp["b"]
@@ -354,6 +390,7 @@ def sub_copula(cd):
     return dict(cd, eta=0.5) if cd["cop"] == "clayton" else dict(cd)
 
 
+@guarded("c12.submargin")
 def p_submargin(ctx, inp):
     """3-d model: the mass of the (i,j) sub-family = mass of the whole-line rectangle in the third coordinate
     = mass of the 2-d model built from margins i, j and the {i,j}-margin of the copula"""
@@ -377,6 +414,7 @@ def p_submargin(ctx, inp):
                                                   "sub": sub, "whole_line": whole, "two_d_model": two}, cls=cls)
 
 
+@guarded("c12.inverse_tail")
 def p_inverse_tail(ctx, inp):
     spec, i, x0 = inp["spec"], inp["i"], inp["x"]
     model = get_model(spec)
@@ -388,13 +426,15 @@ def p_inverse_tail(ctx, inp):
     yb = float(model.marginal_tail_integral(i, back))
     edge = abs(back) in (1e-20, 500.0)
     ok = (back > 0) == (y > 0) and (edge or abs(yb - y) <= 1e-9 * abs(y))
-    if ok and not edge and spec["margins"][i]["fam"] != "table":
+    # x-roundtrip only where the tail integral is numerically strictly monotone (far tails ~1e-15 are flat in floats)
+    if ok and not edge and spec["margins"][i]["fam"] != "table" and abs(y) >= 1e-6:
         ok = abs(back - x0) <= 1e-6 * abs(x0)
     if not ok:
         ctx.fail("oracle", "c12.inverse_tail", inp, {"what": "inverse_tail_integral does not invert the tail integral", "y": y, "x": x0, "back": back,
                                                      "U(back)": yb}, cls=dict(fam=spec["margins"][i]["fam"]))
 
 
+@guarded("c12.density")
 def p_density(ctx, inp):
     """2-d Clayton, rectangle inside one open quadrant: mass = integral of nu_1 nu_2 * |x_first_derivative(U_1, U_2)|"""
     from scipy.integrate import dblquad
@@ -501,7 +541,7 @@ def subsets(d):
 
 def run(ctx, oracle_only=False, factor=1):
     rng = ctx.rng
-    reps = ctx.n(6, 40) * factor
+    reps = ctx.n(14, 110) * factor
     for rep in range(reps):
         for d in (2, 3):
             exact = (rep % 2 == 1)
@@ -539,7 +579,7 @@ def run(ctx, oracle_only=False, factor=1):
             for _ in range(3):
                 p_inverse_tail(ctx, dict(spec=spec, i=rng.randrange(d), x=draw_point(rng, rng.choice([-1, 1]), exact)))
     # --- end points / split points exactly at 0 (finding #30) -------------------------------------------------------
-    for rep in range(ctx.n(12, 80) * factor):
+    for rep in range(ctx.n(40, 400) * factor):
         d = rng.choice([2, 3])
         exact = rng.random() < 0.3
         spec = draw_spec(rng, d, exact)
@@ -569,7 +609,7 @@ def run(ctx, oracle_only=False, factor=1):
         if not oracle_only:
             p_model_table(ctx, inp)
     # --- implied joint density (quadrature) ---------------------------------------------------------------------------
-    for rep in range(ctx.n(2, 25) * factor):
+    for rep in range(ctx.n(3, 30) * factor):
         spec = dict(margins=[dict(fam=f, params={}) for f in (rng.choice(["hem", "merton", "vg", "cgmy"]) for _ in range(2))],
                     cop=dict(cop="clayton", theta=round(rng.uniform(0.4, 2.5), 2), eta=round(rng.uniform(0.1, 0.9), 2)))
         a, b = [], []
